@@ -79,6 +79,17 @@ type c20Person struct {
 	Name string
 }
 
+// every method on the pointer, none on the value
+type c20POnly struct {
+	Lbl string
+	A   int
+}
+
+func (p *c20POnly) Only() string { return "only:" + p.Lbl }
+func (p *c20POnly) Count() int   { return p.A + 1 }
+
+const c20NFixed = 11
+
 func c20Fixed(t int) interface{} {
 	mv := c20MV{A: 11, Lbl: "mv", hid: "secret"}
 	switch t {
@@ -102,11 +113,13 @@ func c20Fixed(t int) interface{} {
 		return c20Person{nil, "nobody"} // nil embedded pointer: City / Zip are absent
 	case -10:
 		return c20Person{&c20Addr{"Oslo", 150}, "someone"}
+	case -11:
+		return c20POnly{"po", 4}
 	}
 	panic("fixed type")
 }
 
-var c20FixedAttrs = []string{"City", "Zip", "Name", "A", "B", "C", "Lbl", "Get", "PGet", "Twice", "hid", "name", "sub", "sub.z", "inner.name", "st.B", "st.A", "st.Get", "nope", "c20MV", "c20Emb"}
+var c20FixedAttrs = []string{"City", "Zip", "Name", "A", "B", "C", "Lbl", "Get", "PGet", "Twice", "hid", "name", "sub", "sub.z", "inner.name", "st.B", "st.A", "st.Get", "nope", "c20MV", "c20Emb", "Only", "Count"}
 
 // ---- generated types ---------------------------------------------------------------------------
 
@@ -410,7 +423,7 @@ func genC20(t *rapid.T) (C20Case, map[string]bool) {
 		}
 		s := C20Step{Op: "query", Ptr: rapid.Bool().Draw(t, "ptr")}
 		if rapid.IntRange(0, 2).Draw(t, "fixed") == 0 {
-			s.T = -rapid.IntRange(1, 10).Draw(t, "fixedt")
+			s.T = -rapid.IntRange(1, c20NFixed).Draw(t, "fixedt")
 			s.Attr = rapid.SampledFrom(c20FixedAttrs).Draw(t, "fattr")
 			s.Idx = rapid.IntRange(0, 3).Draw(t, "idx") == 0
 			st["method-family-or-maps"] = true
@@ -475,11 +488,11 @@ func TestC20Attr(t *testing.T) {
 // TestC20Family: every (fixed value, attribute, value/pointer, form) combination, before and
 // after flooding the cache past its capacity twice.
 func TestC20Family(t *testing.T) {
-	r := NewRec(t, "C20", "exhaustive: the 8 fixed values (method family, maps) x 18 attribute names x {value, pointer} x {x.name, x['name']}, asked three times with two floods of 1200 fresh (type, name) pairs in between; non-trivial = all")
+	r := NewRec(t, "C20", "exhaustive: the 11 fixed values (method family incl. a type with pointer-receiver methods only, embedded pointers, maps) x 23 attribute names x {value, pointer} x {x.name, x['name']}, asked three times with two floods of 1200 fresh (type, name) pairs in between; non-trivial = all")
 	defer r.Flush()
 	r.SetExhaustive()
 	var steps []C20Step
-	for t := -1; t >= -10; t-- {
+	for t := -1; t >= -c20NFixed; t-- {
 		for _, a := range c20FixedAttrs {
 			for _, p := range []bool{false, true} {
 				for _, idx := range []bool{false, true} {
